@@ -145,6 +145,10 @@ fn main() {
             umverif::c11::run(&mut rep);
             rep.finish()
         }
+        "C13" => {
+            umverif::c13::run(&mut rep);
+            rep.finish()
+        }
         "C14" => {
             umverif::c14::run(&mut rep);
             rep.finish()
